@@ -56,7 +56,7 @@ IOPS = ["iadd", "isub", "imul", "itruediv", "ifloordiv", "imod", "ipow"]
 RULE = (
     "bounded-exhaustive sequences over a %d-operation alphabet (all sequences of length <=2 quick / <=3 thorough) x 1, 2, 3 fixed "
     "dimensions, each run densely observed (full comparison after every operation) and sparsely observed (no read of any live vector "
-    "between operations, full comparison at the end), plus seeded random histories of depth 15 (every tenth: 40), half of them sparse; every history starts from a randomly shaped (sizes 1-4), randomly "
+    "between operations, full comparison at the end; of the length-3 sequences every second one), plus seeded random histories of depth 15 (every tenth: 40), half of them sparse; every history starts from a randomly shaped (sizes 1-4), randomly "
     "populated vector (0-5 rows per cell, unset cells, float or int cells) and operation parameters (indices, values, field "
     "names) are drawn from the case seed. non-trivial = two populated cells with different row counts existed and the history "
     "contains a schema change or a block (slice/list) access; distinct = (number of fixed dimensions, observation mode, operation-kind sequence)" % len(ALPHABET)
@@ -81,15 +81,16 @@ EXHAUSTIVE = {"quick": False, "thorough": False}
 def plan(tier, seed):
     """every enumerated sequence is run densely observed and sparsely observed (see the module docstring)"""
     specs = []
-    nrand = 1500 if tier == "quick" else 60000
+    nrand = 1500 if tier == "quick" else 30000
     for i in range(nrand):
         specs.append({"kind": "rand", "ndim": 1 + i % 3, "depth": 15 if i % 10 else 40, "obs": "sparse" if (i // 3) % 2 else "dense"})
     depth = 2 if tier == "quick" else 3
     for nd in (1, 2, 3):
         for d in range(1, depth + 1):
-            for seq in itertools.product(ALPHABET, repeat=d):
-                for obs in ("dense", "sparse"):
-                    specs.append({"kind": "exh", "ndim": nd, "ops": list(seq), "obs": obs})
+            for n, seq in enumerate(itertools.product(ALPHABET, repeat=d)):
+                specs.append({"kind": "exh", "ndim": nd, "ops": list(seq), "obs": "dense"})
+                if d <= 2 or (n + nd) % 2 == 0:  # length-3 sequences: every second one is also run sparsely (time budget)
+                    specs.append({"kind": "exh", "ndim": nd, "ops": list(seq), "obs": "sparse"})
     return specs
 
 
